@@ -3,6 +3,7 @@
 # and the demonstration fails; without it the demonstration passes. Writes <dir>/confirm.json.
 # usage: tools/confirm_seeded.sh seeded/<id> [seeded/<id> ...]
 WT=/tmp/cs
+exec 8>/tmp/cs.lock; flock 8   # one confirmation run at a time
 DIRS=(); for d in "$@"; do DIRS+=("$(realpath "$d")"); done
 if [ ! -d $WT ]; then git -C /repo worktree add -q $WT HEAD || exit 2; fi
 cd $WT || exit 2
